@@ -19,7 +19,9 @@
 *)
 EXTENDS Integers, FiniteSets, TLC
 
-CONSTANTS Fix_HardExit, KillOnTimeout
+CONSTANTS Fix_HardExit, KillOnTimeout,
+          WithLinger     \* TRUE adds the environment "linger": the remote code has returned but left a non-daemon thread or a blocking
+                         \* exit hook behind - serve() returns, the interpreter does not exit (the recorded C11 finding)
 
 VARIABLES Env,         \* the body's behaviour (chosen initially)
           Timeout,     \* terminate(timeout) in ticks (1..3)
@@ -33,10 +35,10 @@ VARIABLES Env,         \* the body's behaviour (chosen initially)
 
 vars == <<clock, wphase, body, tstart, iphase, rung>>
 
-Init == /\ Env \in {"idle", "receive", "busy", "sleep", "swallow", "stopped", "dead"}
+Init == /\ Env \in {"idle", "receive", "busy", "sleep", "swallow", "stopped", "dead"} \cup (IF WithLinger THEN {"linger"} ELSE {})
         /\ Timeout \in 1..3 /\ InitiatorActs \in {"dies", "terminate"}
         /\ clock = 0 /\ wphase = (IF Env = "dead" THEN "gone" ELSE "serving")
-        /\ body = (IF Env \in {"idle", "dead"} THEN "ended" ELSE "running")
+        /\ body = (IF Env \in {"idle", "dead", "linger"} THEN "ended" ELSE "running")
         /\ tstart = 0 /\ iphase = (IF InitiatorActs = "terminate" THEN "joining" ELSE "idle") /\ rung = "none"
 
 Stopped == Env = "stopped"
@@ -49,7 +51,9 @@ WSeeEof ==
 \* waitall(5.0) returns true: nothing is executing any more -> serve() returns, the process exits
 WDone5 ==
   /\ wphase = "wait5" /\ body = "ended"
-  /\ wphase' = "gone" /\ rung' = "eof" /\ UNCHANGED <<clock, body, tstart, iphase>>
+  /\ IF Env = "linger" THEN wphase' = "exiting" /\ UNCHANGED rung       \* serve() returns; the interpreter waits for the thread / runs the hook
+     ELSE wphase' = "gone" /\ rung' = "eof"
+  /\ UNCHANGED <<clock, body, tstart, iphase>>
 \* ... times out: SIGINT to ourselves; busy / sleeping bodies get KeyboardInterrupt
 WSigint ==
   /\ wphase = "wait5" /\ body = "running" /\ clock >= tstart + 5
